@@ -7,8 +7,8 @@ props = [json.loads(l) for l in open(os.path.join(V, 'properties.jsonl'))]
 # id -> (technique, level text, level note)
 CLAIMED = {
  'C01': ('Lean 4 theorems (exact Int picoseconds, exact binary64 on Rat) + generated unit table + differential correspondence',
-         'Proof: 19 theorems about the TimeArray model (SI table regenerated from the source, exact integer storage, nearest-picosecond rounding of the binary64 product, instant-preserving re-wrap/convert, exact operator arithmetic with unit of the left operand, reductions, no wrap below 2^62). The model is tied to the code by the regenerated factor table and by ~4k differential cases per quick run (every operator x operand kind, all 81 unit pairs), including a bit-for-bit validation of the binary64 model against the hardware.',
-         'Trusted: Lean kernel + propext/Classical.choice/Quot.sound; translate.py; the correspondence harness; numpy int64/float64 semantics. Not proved: the a-priori bound |rne q - q| <= |q| 2^-53 of the binary64 model (validated against hardware instead).', '7/C01'),
+         'Proof: 20 theorems about the TimeArray model (SI table regenerated from the source, exact integer storage, nearest-picosecond rounding of the binary64 product, instant-preserving re-wrap/convert, exact operator arithmetic with unit of the left operand, reductions, no wrap below 2^62). The model is tied to the code by the regenerated factor table and by ~4k differential cases per quick run (every operator x operand kind, all 81 unit pairs), including a bit-for-bit validation of the binary64 model against the hardware.',
+         'Trusted: Lean kernel + propext/Classical.choice/Quot.sound; translate.py; the correspondence harness; numpy int64/float64 semantics. The binary64 model itself (rne on Rat) is validated against the hardware bit-for-bit on every run; its relative error bound |rne q - q| <= |q| 2^-53 is proved (rne_near).', '7/C01'),
 }
 PENDING = 'check not built yet (work in progress; DESIGN.md section 10 gives the order of work)'
 
